@@ -3,6 +3,7 @@ nothing (probe battery at sampled reachable states)."""
 from __future__ import annotations
 
 from copy import deepcopy
+from fractions import Fraction
 import random
 import traceback
 import warnings
@@ -120,6 +121,10 @@ def battery(s, rng):
             'dealable'
         yield 'deal_board', (repr(d3[0]) * 2,), 'duplicate'
     yield 'deal_board', ('??',), 'unknown'
+    for half in ('?s', 'A?'):
+        yield 'deal_board', (half,), 'half-known'
+        yield 'burn_card', (half,), 'half-known'
+        yield 'deal_hole', (half,), 'half-known'
     if inplay:
         yield 'deal_board', (repr(rng.choice(inplay)),), 'in-play'
     if dealable:
@@ -150,6 +155,8 @@ def battery(s, rng):
     else:
         for a in (0, 1, 2, 10 ** 6):
             yield 'complete_bet_or_raise_to', (a,), 'no-interval'
+    for a in (10 ** 400, -10 ** 400, Fraction(10 ** 400, 3)):
+        yield 'complete_bet_or_raise_to', (a,), 'astronomic'
     # run-outs
     yield 'select_runout_count', (), 'default'
     for c in (None, -3, 0, 1, 2):
@@ -323,6 +330,11 @@ def gen_kwargs(rng):
 
 
 def pol_tweak(pol, cfg, rng):
+    if rng.random() < 0.08 and cfg.get('game') in gen.BOARD_GAMES:
+        # anonymised boards: unknown and half-known community cards
+        pol['deal'] = 'unknownboard'
+        cfg['autos'] = [a for a in cfg['autos'] if a != 'BOARD_DEALING']
+        cfg['mode'] = 'CASH_GAME'
     if rng.random() < 0.3:
         pol['policy'] = rng.choice(['passive', 'allin'])
     pol['partial_show'] = rng.random() < 0.2
